@@ -3,7 +3,7 @@ SOLVER = os.environ.get("C12_SOLVER", "cadical")
 
 META = {"bounds": "", "outside": "", "assumptions": [], "harness_functions": ["harness", "v_alloc", "v_buf", "v_reallocarray", "memchr", "memrchr", "memmem", "explicit_bzero"]}
 
-KF = set() if os.environ.get("C12_NO_KF") else {"KF_B64_ENC_NUL", "KF_B64_DEC_NUL", "KF_BUF2ARGS_NUL", "KF_ASN_TAG_INDEX", "KF_ASN_SHORT_LEN", "KF_MEM_REPLACE_BOUNDS"}   # known-finding blocking defines in force (see findings/*.md); removed once the fixes are in /repo
+KF = set() if os.environ.get("C12_NO_KF") else {"KF_B64_ENC_NUL", "KF_B64_DEC_NUL", "KF_BUF2ARGS_NUL", "KF_ASN_TAG_INDEX", "KF_ASN_SHORT_LEN", "KF_MEM_REPLACE_BOUNDS", "KF_BT_END_READ", "KF_BT_DICT_KEY", "KF_BT_LEN_WRAP", "KF_INI_GEN_BOUNDS"}   # known-finding blocking defines in force (see findings/*.md); removed once the fixes are in /repo
 
 def J(name, src, defs, unwind, shape, desc, **kw):
     d = {"name": name, "src": src, "defs": dict(defs), "unwind": unwind, "solver": SOLVER, "shape": shape, "desc": desc}
@@ -109,5 +109,30 @@ def small_jobs(tier):
                      "object bounds of data and lookup tables (16 and 256 entries)"))
     return out
 
+def bt_jobs(tier):
+    out = []
+    BTKF = ("KF_BT_END_READ", "KF_BT_DICT_KEY", "KF_BT_LEN_WRAP")
+    # forming an out-of-range pointer VALUE in a comparison (no access) is reported by CBMC as "pointer relation"; it is
+    # not a memory access and no sanitizer sees it: excluded here (the wrap-around case it can lead to is job bt-strlen-L22)
+    excl = "pointer relation"
+    def us(L, K, R):
+        return ["bt_en_decode_top.%d:%d" % (i, K) for i in range(4)] + ["bt_en_free:%d" % R, "bt_en_free.0:%d" % (K if R > 1 else 1), "bt_en_free.1:%d" % (K if R > 1 else 1)]
+    for L in ((0, 1, 2, 3, 4, 5, 6) if tier == "quick" else (0, 1, 2, 3, 4, 5, 6, 7, 8)):
+        out.append(J("bt-dec-L%d" % L, "bt.c", kf({"FN": 1, "LEN": L}, *BTKF), L + 3,
+                     "bt_en_decode body on %d arbitrary bytes; nested calls = contract stub (induction on nesting depth)" % L,
+                     "object bounds, nested calls stay inside the buffer, <= LEN+1 nested calls, result obeys the contract",
+                     unwindset=us(L, L + 2, 1), prop_exclude=excl, timeout=300, flags=["--no-malloc-may-fail"]))
+    for L in ((3, 4, 5) if tier == "quick" else (3, 4, 5, 6, 7)):
+        out.append(J("bt-flat-L%d" % L, "bt.c", kf({"FN": 1, "LEN": L, "MAXCONT": 1}, *BTKF), L + 3,
+                     "as bt-dec-L%d, inputs with at most one 'l'/'d' byte (nested items are strings / integers, for which the stub is byte-exact)" % L,
+                     "same obligations; counterexamples of this shape replay against the real recursive function",
+                     unwindset=us(L, L + 2, 1), prop_exclude=excl, timeout=300, flags=["--no-malloc-may-fail"]))
+    for L in ((22,) if tier == "quick" else (21, 22, 23)):
+        out.append(J("bt-strlen-L%d" % L, "bt.c", kf({"FN": 1, "LEN": L, "DIGIT0": None, "NEARMAX": None}, *BTKF), L + 3,
+                     "bt_en_decode on %d bytes: '<%d digits>:' + one byte, length value within 2^32 of SIZE_MAX" % (L, L - 2),
+                     "as bt-dec; reaches the 20-digit lengths around SIZE_MAX",
+                     unwindset=us(L, 2, 1), prop_exclude=excl, timeout=300, flags=["--no-malloc-may-fail"]))
+    return out
+
 def jobs(tier):
-    return b64_jobs(tier) + bufstr_jobs(tier) + mem_jobs(tier) + small_jobs(tier)
+    return b64_jobs(tier) + bufstr_jobs(tier) + mem_jobs(tier) + small_jobs(tier) + bt_jobs(tier)
